@@ -21,7 +21,7 @@ def run(prop, tier):
     jobs.append(dict(src=SRC, args=["trypub", "-p", p + 1, "-s", 1]))
     acc = mcsched.run_jobs(prop, tier, jobs)
     extra = {}
-    if tier == "thorough" and not acc.viols:
+    if tier == "thorough" and not acc.viols and not acc.engine_errors:
         extra = mcsched.conformance(acc, [j for j in jobs if j["args"][0] not in ("values", "barrier")])
     cov = mcsched.coverage(acc, "stateless DFS over all interleavings with <= %d preemptions, <= 1 spurious wake-up and every choice of the waiter a signal wakes, of "
                                 "producer/consumer (capacity-1 buffer, signal), gate (broadcast), token (signal after unlock / inside one critical section) and "
